@@ -35,7 +35,7 @@ func rawArith(f *ssa.Function) []*ssa.BinOp {
 }
 
 func ruleC01(c *Ctx) {
-	c.Explain("C01 (structural part): checked-arithmetic discipline + guard dominance + sibling case sets. Decided: in the mux case of checkValid and in GasState.setGas/chargeStorageGas/updateUsage every integer + - * / on amounts goes through math/checked (raw operations must be in the reviewed exemption table); every math/checked call in protocol/validation, protocol/vm and protocol/state has its ok result tested and the failing side cannot report success; each uint64→int64 conversion of an amount is dominated by the `> MaxInt64` rejection; each parity entry is either handed to setGas (BTM) or rejected when non-zero; setGas rejects negatives before the unsigned store; the transaction's own Fee() sums Amount() of every BTM input without filtering by input kind, Amount()/AssetID() cover issuance, spend and veto inputs, and the mux sources are built from the same AssetAmount those accessors read. Not decided: the arithmetic identity itself (sum equality for all multisets) and Fee()'s raw uint64 additions (bounded only for validated transactions).")
+	c.Explain("C01 (structural part): checked-arithmetic discipline + guard dominance + sibling case sets. Decided: in the mux case of checkValid and in GasState.setGas/chargeStorageGas/updateUsage every integer + - * / on amounts goes through math/checked (raw operations must be in the reviewed exemption table); every math/checked call in protocol/validation, protocol/vm and protocol/state has its ok result tested and the failing side cannot report success; each uint64→int64 conversion of an amount is dominated by the `> MaxInt64` rejection; each parity entry is either handed to setGas (BTM) or rejected when non-zero; setGas rejects negatives before the unsigned store; the transaction's own Fee() sums Amount() of every BTM input without filtering by input kind, Amount()/AssetID() cover issuance, spend and veto inputs, and the mux sources are built from the same AssetAmount those accessors read; every AssetAmount.Equal result in protocol/validation is tested and its not-equal side can only fail. Not decided: the arithmetic identity itself (sum equality for all multisets) and Fee()'s raw uint64 additions (bounded only for validated transactions).")
 	cv := c.Func(pVal, "checkValid")
 	// (a) raw arithmetic inventory
 	allowedRaw := map[string]string{
@@ -234,8 +234,10 @@ func ruleC01(c *Ctx) {
 		}
 	}
 	c.Require("fieldinit", "validationState.cache is a fresh map for every validated transaction", okc, "%d construction site(s) %s", len(ws), dc)
+	c.valueMatchTested("valuematch")
 	c.Floor("checkedarith", 8)
 	c.Floor("facts", 5)
+	c.Floor("valuematch", 3)
 }
 
 func factsAtHas(in ssa.Instruction, sub string) bool {
